@@ -21,6 +21,9 @@ if "--checks" in args:
 if "--tier" in args:
     tier = args[args.index("--tier") + 1]
 name = f"{pid}-{os.path.basename(src.rstrip('/'))}"
+in_place = os.path.dirname(src.rstrip("/")) == os.path.join(HERE, "seeded")  # re-evaluation of a stored change
+if in_place:
+    name = os.path.basename(src.rstrip("/"))
 wt = tempfile.mkdtemp(prefix="seedeval-")
 os.rmdir(wt)
 subprocess.run(["git", "-C", "/repo", "worktree", "add", "-q", "--detach", wt, "HEAD"], check=True)
@@ -59,8 +62,9 @@ finally:
     shutil.rmtree(wt, ignore_errors=True)
 dst = os.path.join(HERE, "seeded", name)
 os.makedirs(dst, exist_ok=True)
-for f in ("patch.diff", "demo.py"):
-    shutil.copy(os.path.join(src, f), dst)
+if not in_place:
+    for f in ("patch.diff", "demo.py"):
+        shutil.copy(os.path.join(src, f), dst)
 meta = {}
 if os.path.exists(os.path.join(src, "meta.json")):
     try:
